@@ -788,13 +788,22 @@ func (vm *vm) restoreStacks(iterLen, refLen uint32) (ex *Exception) {
 		}
 		iterTail[i] = iterStackItem{}
 	}
+	vm.dropStacks(iterLen, refLen)
+	return
+}
+
+// dropStacks truncates the iterator and reference stacks without closing the iterators.
+func (vm *vm) dropStacks(iterLen, refLen uint32) {
+	iterTail := vm.iterStack[iterLen:]
+	for i := range iterTail {
+		iterTail[i] = iterStackItem{}
+	}
 	vm.iterStack = vm.iterStack[:iterLen]
 	refTail := vm.refStack[refLen:]
 	for i := range refTail {
 		refTail[i] = nil
 	}
 	vm.refStack = vm.refStack[:refLen]
-	return
 }
 
 func (vm *vm) handleThrow(arg interface{}) *Exception {
@@ -815,7 +824,13 @@ func (vm *vm) handleThrow(arg interface{}) *Exception {
 		vm.sp = int(tf.sp)
 		vm.stash = tf.stash
 		vm.privEnv = tf.privEnv
-		_ = vm.restoreStacks(tf.iterLen, tf.refLen)
+		if ex != nil {
+			_ = vm.restoreStacks(tf.iterLen, tf.refLen)
+		} else {
+			// an interrupt, a stack overflow or a Go panic must not run any more script code:
+			// drop the open iterators instead of calling their return()
+			vm.dropStacks(tf.iterLen, tf.refLen)
+		}
 
 		if tf.catchPos == tryPanicMarker {
 			break
